@@ -47,12 +47,12 @@ PROPS['C02'] = dict(
           'with shuffle / capture / quiet phases. evaluations = (position, move) pairs compared on all six FEN fields. Non-trivial = distinct (position, move) '
           'where the move is a castle, en passant, promotion, double push, king/rook move with rights, or captures a home rook whose right still exists.'),
     assumptions=[ORACLE_ASSUMPTION],
-    quick=dict(cases=220, shards=16, scale=8,
+    quick=dict(cases=1760, shards=16, scale=8,
                gates={'c02:castle_white_short_clock>0': 5, 'c02:castle_white_long_clock>0': 5, 'c02:castle_black_short_clock>0': 5,
                       'c02:castle_black_long_clock>0': 5, 'c02:ep_by_white': 10, 'c02:ep_by_black': 10, 'c02:promo_q': 20, 'c02:promo_n': 20,
                       'c02:promo_r_capture': 10, 'c02:capture_home_rook_with_right': 10, 'c02:games': 300},
                min_nontrivial=5000),
-    thorough=dict(cases=5000, shards=16, scale=10, gates={'c02:games': 5000}, min_nontrivial=100000),
+    thorough=dict(cases=20000, shards=16, scale=10, gates={'c02:games': 5000}, min_nontrivial=100000),
 )
 PROPS['C03'] = dict(
     level='exploration',
@@ -64,10 +64,10 @@ PROPS['C03'] = dict(
     rule=('One case = a root position + up to 300 (quick) / 600 (thorough) operations, depth <= 40. evaluations = undo comparisons (+ perft / rebuild brackets). '
           'Non-trivial = distinct walks (root, move list) that contain an undone castle / en passant / promotion or a null move with an en-passant square pending and reach depth >= 3.'),
     assumptions=['snapshot equality uses piece lists as multisets (list order may legitimately change)'],
-    quick=dict(cases=140, shards=16, scale=8,
+    quick=dict(cases=1400, shards=16, scale=8,
                gates={'c03:castle': 50, 'c03:ep': 20, 'c03:promo_capture': 20, 'c03:null': 200, 'c03:null_with_ep_pending': 5, 'c03:depth>=10': 100},
                min_nontrivial=500),
-    thorough=dict(cases=3000, shards=16, scale=10, gates={'c03:null_with_ep_pending': 50}, min_nontrivial=10000),
+    thorough=dict(cases=15000, shards=16, scale=10, gates={'c03:null_with_ep_pending': 50}, min_nontrivial=10000),
 )
 PROPS['C04'] = dict(
     level='exploration',
@@ -78,11 +78,11 @@ PROPS['C04'] = dict(
     level_note='Keys are random per process; the verdict uses only (in)equalities inside one process. A true 64-bit collision (p < 1e-7 per run) would be re-tested by the 3x replay rule.',
     rule=('evaluations = key observations. Non-trivial = distinct positions reached by at least two different paths (transposition confirmed) or probed with a null move while an en-passant square was pending.'),
     assumptions=[ORACLE_ASSUMPTION],
-    quick=dict(cases=260, shards=16, scale=8,
+    quick=dict(cases=2080, shards=16, scale=8,
                gates={'c04:transposition_confirmed': 300, 'c04:null_after_double_push': 20, 'c04:permutation_line': 200, 'c04:rook_captured': 10,
                       'c04:ep_capture': 5, 'c04:meta_one_castling_right': 100},
                min_nontrivial=300),
-    thorough=dict(cases=6000, shards=16, scale=8, min_nontrivial=5000),
+    thorough=dict(cases=25000, shards=16, scale=8, min_nontrivial=5000),
 )
 PROPS['C07'] = dict(
     level='exploration',
@@ -93,11 +93,11 @@ PROPS['C07'] = dict(
     rule=('evaluations = plies checked (8 predicates each). Non-trivial = distinct (position, occurrence count, clock) where some predicate is true '
           'or the placement recurred with different rights / ep square.'),
     assumptions=[ORACLE_ASSUMPTION],
-    quick=dict(cases=60, shards=16, scale=12,
+    quick=dict(cases=480, shards=16, scale=12,
                gates={'c07:threefold': 30, 'c07:threefold_nonconsecutive': 3, 'c07:clock_reaches_100': 5, 'c07:checkmate': 5, 'c07:stalemate': 2,
                       'c07:insufficient_reached_by_capture': 5, 'c07:same_placement_different_rights_or_ep': 5},
                min_nontrivial=2000),
-    thorough=dict(cases=1500, shards=16, scale=16, min_nontrivial=50000),
+    thorough=dict(cases=6000, shards=16, scale=16, min_nontrivial=50000),
 )
 PROPS['C15'] = dict(
     level='exploration',
@@ -106,11 +106,11 @@ PROPS['C15'] = dict(
     level_note=ORACLE_ASSUMPTION,
     rule=('evaluations = (position, move) pairs. Non-trivial = distinct pairs where the move is special (castle, promotion, en passant) or gives check or captures.'),
     assumptions=[ORACLE_ASSUMPTION],
-    quick=dict(cases=400, shards=16, scale=6,
+    quick=dict(cases=2400, shards=16, scale=6,
                gates={'c15:promo_check_by_new_piece': 20, 'c15:castle_checking': 3, 'c15:castle_not_checking': 50, 'c15:ep_discovered_check': 1,
                       'c15:discovered_check': 50, 'c15:double_check': 10},
                min_nontrivial=20000),
-    thorough=dict(cases=8000, shards=16, scale=6, gates={'c15:ep_discovered_check': 10, 'c15:castle_not_checking_king_on_old_rook_file': 5}, min_nontrivial=400000),
+    thorough=dict(cases=30000, shards=16, scale=6, gates={'c15:ep_discovered_check': 10, 'c15:castle_not_checking_king_on_old_rook_file': 5}, min_nontrivial=400000),
 )
 PROPS['C16'] = dict(
     level='exploration',
@@ -120,11 +120,11 @@ PROPS['C16'] = dict(
     rule=('evaluations = round trips. Non-trivial = distinct special moves (castles, promotions) and FENs with rights / ep / non-initial clocks. '
           'Encoding space (20,480 + 2 codes) is enumerated completely in every shard.'),
     assumptions=['half-move clocks <= 150 and full-move numbers <= 3000 (legal games)'],
-    quick=dict(cases=300, shards=16, scale=6,
+    quick=dict(cases=3000, shards=16, scale=6,
                gates={'c16:castle_e1g1': 10, 'c16:castle_e1c1': 10, 'c16:castle_e8g8': 10, 'c16:castle_e8c8': 10, 'c16:promo_q': 20, 'c16:promo_n': 20,
                       'c16:fullmove>200': 50, 'c16:encoding_exhaustive_pass': 16},
                min_nontrivial=3000),
-    thorough=dict(cases=6000, shards=16, scale=6, min_nontrivial=60000),
+    thorough=dict(cases=30000, shards=16, scale=6, min_nontrivial=60000),
 )
 PROPS['C17'] = dict(
     level='exploration',
@@ -133,10 +133,10 @@ PROPS['C17'] = dict(
     level_note='Only the engine\'s own printer/parser pair is compared (the property is about that pair), no external SAN grammar.',
     rule='evaluations = moves round-tripped. Non-trivial = distinct moves needing disambiguation, castles, promotions.',
     assumptions=[],
-    quick=dict(cases=160, shards=16, scale=6,
+    quick=dict(cases=960, shards=16, scale=6,
                gates={'c17:disambiguated_file_and_rank': 20, 'c17:castle_with_suffix': 2, 'c17:promotion_with_suffix': 10},
                min_nontrivial=3000),
-    thorough=dict(cases=3000, shards=16, scale=6, gates={'c17:more_than_128_moves': 3, 'c17:castle_with_suffix': 20}, min_nontrivial=60000),
+    thorough=dict(cases=10000, shards=16, scale=6, gates={'c17:more_than_128_moves': 3, 'c17:castle_with_suffix': 20}, min_nontrivial=60000),
 )
 PROPS['C18'] = dict(
     level='exploration',
@@ -146,11 +146,11 @@ PROPS['C18'] = dict(
                 'test keys through the independent routine and by the anchor constants 0,768..780; a constant already mistyped at the pinned commit and untouched by the nine vectors would go unnoticed.'),
     rule='evaluations = keys compared. Non-trivial = distinct positions with castling rights or an en-passant square. classes report how many of the 768+4+8 constants were exercised.',
     assumptions=['ref/polyglot_random.h provenance as stated in level_note'],
-    quick=dict(cases=400, shards=16, scale=6,
+    quick=dict(cases=4000, shards=16, scale=6,
                gates={'c18:ep_capturer_left': 20, 'c18:ep_capturer_right': 20, 'c18:ep_capturer_both': 5, 'c18:ep_no_capturer': 20, 'c18:ep_on_rook_file': 5,
                       'c18:rights_count_4': 50, 'c18:rights_count_1': 50},
                min_nontrivial=10000),
-    thorough=dict(cases=8000, shards=16, scale=6, min_nontrivial=200000),
+    thorough=dict(cases=40000, shards=16, scale=6, min_nontrivial=200000),
 )
 
 PROPS['C11'] = dict(
@@ -183,7 +183,7 @@ PROPS['C20'] = dict(
     level_note='Domain as stated in the property: time 0..24h ms, inc 0..10min, movestogo 0..200, ply 0..1000.',
     rule='evaluations = calculateTime calls checked. Non-trivial = distinct tuples (every tuple exercises the invariants); pairs with delta in {1, 10, large} counted as classes.',
     assumptions=[],
-    quick=dict(cases=1500, shards=16, scale=3, gates={'c20:tiny_time': 1000, 'c20:movestogo_1': 500, 'c20:pair_delta_1': 5000}, min_nontrivial=100000),
+    quick=dict(cases=3000, shards=16, scale=3, gates={'c20:tiny_time': 1000, 'c20:movestogo_1': 500, 'c20:pair_delta_1': 5000}, min_nontrivial=100000),
     thorough=dict(cases=60000, shards=16, scale=3, min_nontrivial=5000000),
 )
 
@@ -195,8 +195,8 @@ PROPS['C13'] = dict(
     level_note='The mirror (ranks flipped, colours, rights, ep square, side swapped) is done on the FEN by the harness; a mismatch is re-checked with fresh evaluators so that cache defects (C14) are not blamed on symmetry.',
     rule='evaluations = (position, mirror) pairs with sufficient mating material. Non-trivial = distinct positions (each pair exercises the relation); classes eval:sig_<signature>_<w|b> count the specialised classes per strong colour.',
     assumptions=[],
-    quick=dict(cases=900, shards=16, scale=3, gates=dict([('eval:sig_%s_%s' % (n, c), 120) for n in ['KPK','KBPsKB2','KBPKB','KQKP','KRKP','KNNKP','KQKRP','KBPsK2','KPsK2','KNBK'] for c in 'wb'] + [('eval:kbpskb_blockade_w', 300), ('eval:kbpskb_blockade_b', 300)]), min_nontrivial=30000),
-    thorough=dict(cases=40000, shards=16, scale=3, min_nontrivial=2000000),
+    quick=dict(cases=13500, shards=16, scale=3, gates=dict([('eval:sig_%s_%s' % (n, c), 120) for n in ['KPK','KBPsKB2','KBPKB','KQKP','KRKP','KNNKP','KQKRP','KBPsK2','KPsK2','KNBK'] for c in 'wb'] + [('eval:kbpskb_blockade_w', 300), ('eval:kbpskb_blockade_b', 300)]), min_nontrivial=30000),
+    thorough=dict(cases=150000, shards=16, scale=3, min_nontrivial=2000000),
 )
 PROPS['C14'] = dict(
     level='exploration', flavour='fast',
@@ -206,7 +206,7 @@ PROPS['C14'] = dict(
     level_note='Slot-colliding structures depend on the per-process random keys and are searched at start-up (counted in classes); the mate band is the engine\'s own score2str definition.',
     rule='evaluations = warm-vs-fresh comparisons. Non-trivial = distinct histories containing an expected cache hit, a slot collision member, or clear-then-pawnless.',
     assumptions=[],
-    quick=dict(cases=220, shards=16, scale=3, gates={'c14:pawn_cache_hit_expected': 300, 'c14:slot_collision_eval': 300, 'c14:pawnless_after_clear': 100, 'c14:slot0_structures_found': 1, 'c14:slot0_clear_pawnless_sequence': 20}, min_nontrivial=1000),
+    quick=dict(cases=880, shards=16, scale=3, gates={'c14:pawn_cache_hit_expected': 300, 'c14:slot_collision_eval': 300, 'c14:pawnless_after_clear': 100, 'c14:slot0_structures_found': 1, 'c14:slot0_clear_pawnless_sequence': 20}, min_nontrivial=1000),
     thorough=dict(cases=6000, shards=16, scale=3, gates={'c14:slot0_structures_found': 4}, min_nontrivial=50000),
 )
 
@@ -219,7 +219,7 @@ PROPS['C19'] = dict(
     level_note='Statistical part: Hoeffding bound on a false alarm per comparison 2*exp(-2*20000*0.04^2) < 1e-27; an off-by-one boundary moves a probability by >= 1/12 > 2*0.04. Keys whose weights are all zero are outside the domain.',
     rule='evaluations = books loaded + policy checks. Non-trivial = distinct books with a repeated key, a zero weight, a truncated tail, or empty.',
     assumptions=['decode of a record in a position follows the Polyglot format text (castling stored as king-takes-rook, also accepted in king-two-squares form)'],
-    quick=dict(cases=150, shards=16, scale=3, gates={'c19:truncated_file': 100, 'c19:empty_file': 30, 'c19:repeated_key': 300, 'c19:zero_weight': 200,
+    quick=dict(cases=450, shards=16, scale=3, gates={'c19:truncated_file': 100, 'c19:empty_file': 30, 'c19:repeated_key': 300, 'c19:zero_weight': 200,
                                                   'c19:castling_record': 100, 'c19:promotion_record': 50, 'c19:distribution_checked': 100}, min_nontrivial=500),
     thorough=dict(cases=3000, shards=16, scale=3, min_nontrivial=20000),
 )
@@ -235,7 +235,7 @@ PROPS['C05'] = dict(
     level_note=SEARCH_NOTE + ' ' + ORACLE_ASSUMPTION,
     rule='evaluations = searches run. Non-trivial = distinct (position, limits, fault) where a fault was exercised: stop delivered before iteration 1 completed, or a poisoned table.',
     assumptions=[ORACLE_ASSUMPTION, 'the real 4M-entry table and wall-clock polling are replaced by the small table and the virtual clock'],
-    quick=dict(cases=110, shards=16, scale=4, gates={'c05:stop_before_first_iteration_completed': 150, 'c05:searches_with_poisoned_table': 200, 'c05:searchmoves': 150,
+    quick=dict(cases=220, shards=16, scale=4, gates={'c05:stop_before_first_iteration_completed': 150, 'c05:searches_with_poisoned_table': 200, 'c05:searchmoves': 150,
                                                   'c05:time_limited': 200, 'c05:explosive_position': 100, 'c05:search_on_used_table': 300, 'c05:tiny_endgame': 2000}, min_nontrivial=300),
     thorough=dict(cases=2000, shards=16, scale=4, min_nontrivial=10000),
 )
@@ -259,7 +259,7 @@ PROPS['C09'] = dict(
     level_note=SEARCH_NOTE,
     rule='evaluations = searches. Non-trivial = distinct cases with depth > 40, a single-legal-move root, or searchmoves.',
     assumptions=['depth-limited searches that exceed the visit cap are counted as inconclusive'],
-    quick=dict(cases=70, shards=16, scale=4, gates={'c09:depth_above_internal_maximum': 100, 'c09:searchmoves_on_warmed_table': 80, 'c09:time_limited': 200, 'c09:single_legal_move_root': 5}, min_nontrivial=300),
+    quick=dict(cases=140, shards=16, scale=4, gates={'c09:depth_above_internal_maximum': 100, 'c09:searchmoves_on_warmed_table': 80, 'c09:time_limited': 200, 'c09:single_legal_move_root': 5}, min_nontrivial=300),
     thorough=dict(cases=2000, shards=16, scale=4, min_nontrivial=10000),
 )
 
